@@ -13,7 +13,7 @@ import (
 
 // C10 — deserialising untrusted or outdated JSON never yields a booby-trapped value.
 
-var c10Scripts = []string{"x", "x+1", "1+x", "-x", "x==x", "x ?? 1", "x ? 1 : 2", "x || 1", "x && 1", "x[0]", "x['a']", "x[0:1]", "x.a", "x.a = 1", "x[0] = 1", "x()", "x(1)", "x.len()", "x.sum()", "x.kh()", "x.kl(1)",
+var c10Scripts = []string{"x(1, 2)", "x('hp')", "x('mp', 7)", "x('a', 1, 2)", "x('hp'); x('mp', 7)", "x", "x+1", "1+x", "-x", "x==x", "x ?? 1", "x ? 1 : 2", "x || 1", "x && 1", "x[0]", "x['a']", "x[0:1]", "x.a", "x.a = 1", "x[0] = 1", "x()", "x(1)", "x.len()", "x.sum()", "x.kh()", "x.kl(1)",
 	"x.keys()", "x.values()", "x.items()", "x.shuffle()", "x.pop()", "x.shift()", "x.push(1)", "x.rand()", "x.randSize(1)", "x.compute()", "[x]*2", "x*2", "`{x}`", "toStr(x)", "repr(x)", "dir(x)", "typeId(x)", "toInt(x)", "toBool(x)",
 	"2d(x)", "(x)d6", "&y = x; y", "x == 1", "x < 1", "[x, x]", "{'k': x}", "x[0][0]", "x.a.b", "func f(v) { v }; f(x)", "store('q', x); q", "load('x')", "x.fn(1)", "x.cv", "abs(x)", "[1,2,3][x]", "x[x]"}
 
@@ -201,7 +201,7 @@ func c10Doc(r *fw.Rand, depth int) string {
 			v = c10Scalar(r)
 		}
 	case "9":
-		v = `{"name":` + r.Pick([]string{`"toStr"`, `"ceil"`, `"store"`, `"nope"`, `"Array.push"`, `"Dict.keys"`, `"Computed.compute"`, `""`, `null`, `1`}) + `}`
+		v = `{"name":` + r.Pick([]string{`"toStr"`, `"ceil"`, `"store"`, `"load"`, `"loadRaw"`, `"dir"`, `"typeId"`, `"abs"`, `"nope"`, `"Array.push"`, `"Dict.keys"`, `"Computed.compute"`, `""`, `null`, `1`}) + `}`
 		if fault && r.Bool() {
 			v = c10Scalar(r)
 		}
